@@ -1,6 +1,6 @@
 (* C03 — each structure is a connected component of a superlevel set. *)
 From Coq Require Import ZArith List Bool Permutation.
-From Dendro Require Import Base Tree Grid GridLemmas Criteria Compute ComputeInv ComputeThm Concrete.
+From Dendro Require Import Base Tree Grid GridLemmas Criteria Compute ComputeInv ComputeThm Concrete NoPrune.
 Import ListNotations.
 Open Scope Z_scope.
 
@@ -66,6 +66,18 @@ Theorem C03_compute_contour :
     In (y, vy) (regionv u) -> vq <= vy.
 Proof. exact grid_contour. Qed.
 Print Assumptions C03_compute_contour.
+
+(* when no pruning is requested (the criterion accepts every leaf at every meeting value) no
+   pixel owned by a branch is brighter than any pixel of its substructures *)
+Theorem C03_branch_below_children :
+  forall adj indep, (forall o v, indep o (Some v) = true) ->
+  forall order,
+    NoDup (map fst order) -> sorted_desc order ->
+    (forall a b, In a (map fst order) -> In b (map fst order) -> In b (adj a) -> In a (adj b)) ->
+    forall u k y vy z vz,
+      In (u, k) (fedges (run adj indep order)) -> In (y, vy) (town u) -> In (z, vz) (regionv k) -> vy <= vz.
+Proof. exact branch_below_children. Qed.
+Print Assumptions C03_branch_below_children.
 
 (* non-vacuity: a 2-D periodic example with a branch *)
 Example C03_example :
